@@ -177,9 +177,9 @@ Lemma key_ltb_total a b : key_ltb a b = true \/ a = b \/ key_ltb b a = true.
 Proof.
   destruct a as [a1 a2], b as [b1 b2]. unfold key_ltb. cbn.
   rewrite !orb_true_iff, !andb_true_iff, !Z.ltb_lt, !Z.eqb_eq.
-  destruct (Z.lt_trichotomy a1 b1) as [H|[H|H]]; [tauto| |tauto].
-  destruct (Z.lt_trichotomy a2 b2) as [H'|[H'|H']]; [tauto| |tauto].
-  subst. tauto.
+  destruct (Z.lt_trichotomy a1 b1) as [H|[H|H]]; [tauto| |tauto]. subst b1.
+  destruct (Z.lt_trichotomy a2 b2) as [H'|[H'|H']]; [tauto| |intuition].
+  subst. intuition.
 Qed.
 
 Definition name_lt : name -> name -> Prop := klt name_ltb.
@@ -221,6 +221,16 @@ Proof. apply sorted_NoDup; [apply key_ltb_irrefl|apply key_ltb_trans]. Qed.
 
 (* ---------------------------------------------------------------------------------------------- *)
 (* selecting entries of a labelled list by identifier *)
+
+Lemma perm_flat_map {A B} (f : A -> list B) l l' :
+  Permutation l l' -> Permutation (flat_map f l) (flat_map f l').
+Proof.
+  induction 1; cbn [flat_map].
+  - constructor.
+  - apply Permutation_app_head. assumption.
+  - rewrite !app_assoc. apply Permutation_app_tail. apply Permutation_app_comm.
+  - etransitivity; eassumption.
+Qed.
 
 Section Select.
   Context {A : Type}.
@@ -294,7 +304,7 @@ Section Select.
     - destruct xs; [reflexivity|discriminate].
     - destruct xs as [|x xs]; [discriminate|]. unfold select. cbn [flat_map].
       rewrite pick_cons, name_eqb_refl, pick_absent by exact Hn. cbn [app]. f_equal.
-      rewrite <- (IH xs) at 2 by (cbn in Hl; lia). unfold select.
+      transitivity (select nms nms xs); [|apply IH; cbn in Hl; lia]. unfold select.
       apply flat_map_ext_in. intros d Hd. rewrite pick_cons.
       destruct (name_eqb nm d) eqn:E; [|reflexivity]. apply name_eqb_eq in E. subst. contradiction.
   Qed.
@@ -304,13 +314,13 @@ Section Select.
     Permutation (select s nms xs) xs.
   Proof.
     intros Hnd Hl Hp. rewrite <- (select_self nms xs Hnd Hl) at 2. unfold select.
-    clear Hl Hnd. induction Hp; cbn [flat_map].
-    - constructor.
-    - apply Permutation_app_head. exact IHHp.
-    - rewrite !app_assoc. apply Permutation_app_tail. apply Permutation_app_comm.
-    - etransitivity; eassumption.
+    apply perm_flat_map. exact Hp.
   Qed.
 End Select.
+
+Lemma select_cons {A} d s nms (xs : list A) :
+  select (d :: s) nms xs = pick d nms xs ++ select s nms xs.
+Proof. reflexivity. Qed.
 
 Lemma pick_map {A B} (f : A -> B) d nms xs : map f (pick d nms xs) = pick d nms (map f xs).
 Proof.
@@ -369,15 +379,15 @@ Lemma select_transpose {A} s nms c (B : list (list A)) :
   transpose (length s) (map (select s nms) B) = select s nms (transpose c B).
 Proof.
   intros Hnd Hc HF. induction s as [|d s IH]; intro Hs; [reflexivity|].
-  cbn [length transpose]. unfold select at 1 2. cbn [flat_map]. fold (select s nms).
+  cbn [length transpose].
   assert (Hd : In d nms) by (apply Hs; left; reflexivity).
+  rewrite (map_ext (select (d :: s) nms) (fun row => pick d nms row ++ select s nms row))
+    by (intro; apply select_cons).
   destruct (heads_cons_map (pick d nms) (select s nms) B) as [H1 H2].
   { intros row Hr. apply pick_length_1; [exact Hnd| |exact Hd].
     rewrite Forall_forall in HF. rewrite (HF row Hr). exact Hc. }
-  unfold select at 1 2. cbn [flat_map].
-  change (flat_map (fun d0 => pick d0 nms ?x) s) with (select s nms x) in *.
   rewrite H1, H2, IH by (intros d' Hd'; apply Hs; right; exact Hd').
-  rewrite (pick_column d nms c B Hnd Hc HF Hd). reflexivity.
+  rewrite select_cons, (pick_column d nms c B Hnd Hc HF Hd). reflexivity.
 Qed.
 
 (* ---------------------------------------------------------------------------------------------- *)
